@@ -74,9 +74,13 @@ def _run_history(sp, prog, requested, others, call, A, e, n_calls, kind, spec, e
     obs = []
     vals0 = _values(prog)
     hist = []
+    pre_terms = {n: list(prog[n].grad._flat()) for n in prog.leaf_names() if prog[n].grad is not None}
     def cex(model=None):
         return dict(kind="accumulate", mode=kind, spec=spec_json(spec), requested=requested, history=hist, n_calls=n_calls, **extra,
-                    jac={} if model is None else jac_values(model, prog))
+                    jac={} if model is None else jac_values(model, prog),
+                    pre_values=None if model is None else {n: cex_values(model, g=g)["g"] for n, g in pre_terms.items()},
+                    v=None if model is None else cex_values(model, v=[(A.cached_values if isinstance(A, CachedAStar) else o._flat()) for o in A.outs])["v"],
+                    delta=None if model is None else cex_values(model, d=[named(f"delta_{c}") for c in range(1, n_calls)])["d"])
     expected = {n: (list(prog[n].grad._flat()) if prog[n].grad is not None else None) for n in requested}
     other_before = {n: (None if prog[n].grad is None else (id(prog[n].grad), list(prog[n].grad._flat()))) for n in others}
     for c in range(n_calls):
